@@ -62,8 +62,9 @@ ASSUMPTIONS = [
     "expected to be accepted exactly for the classes each composes_inplace_with docstring names",
     "readout_history, 2-D axis/angle: the open known finding (sign lost when sin < 0) is reported by clause "
     "axis_angle_2d only; here a reported +|theta| for such a matrix is accepted as long as it is the |theta| of the "
-    "CURRENT matrix. A cosine entry pushed beyond 1 by round-off of a composition (rot(a) o rot(-a)) makes arccos "
-    "return nan: recorded as an event, not asserted (candidate defect, reported)",
+    "CURRENT matrix. A cosine entry pushed an ulp beyond 1 by round-off of a composition (rot(a) o rot(-a)) is "
+    "counted and judged like any other matrix: the angle must be finite and reconstruct the matrix to 1e-7 (it was nan "
+    "before repo fix 4656c0b)",
     "readout_history, 3-D axis/angle: reconstruction asserted when the current rotation angle is in [0.01, pi-0.01]; "
     "outside (identity, half turns: excluded by the property) only None-ness is compared with the fresh object; str() "
     "is compared with the fresh object's in 2-D and for scales / translations only (the 3-D angle has run-to-run "
@@ -304,6 +305,48 @@ def c_axis_angle_2d(case, ctx):
                 "axis_angle.2d.reconstruct",
                 "rotation by %r deg (wrapped %.6f rad) reports angle %+.6f rad" % (case["theta_deg"], w, ang),
             )
+
+
+def s_inverse_pair_2d():
+    return st.fixed_dictionaries({
+        "theta_deg": gen.angle_deg(),
+        "partner": st.sampled_from(["negated_angle", "pseudoinverse", "negated_plus_half_turn"]),
+        "how": st.sampled_from(["compose_before", "compose_after", "compose_before_inplace", "compose_after_inplace"]),
+    })
+
+
+def c_inverse_pair_2d(case, ctx):
+    """A 2-D rotation composed with its own inverse (or inverse plus a half turn): the product is the identity (a half
+    turn) up to round-off, its cosine entry may sit an ulp beyond +-1; the reported axis / angle must still be finite and
+    reconstruct the matrix the product holds, and str() must not print nan."""
+    a = case["theta_deg"]
+    r = Rotation.init_from_2d_ccw_angle(a)
+    if case["partner"] == "pseudoinverse":
+        s_ = r.pseudoinverse()
+    elif case["partner"] == "negated_angle":
+        s_ = Rotation.init_from_2d_ccw_angle(-a)
+    else:
+        s_ = Rotation.init_from_2d_ccw_angle(180 - a)
+    how = case["how"]
+    if how.endswith("_inplace"):
+        c = r.copy()
+        getattr(c, how)(s_)
+    else:
+        c = getattr(r, how)(s_)
+    m = np.array(c.h_matrix[:2, :2], dtype=float)
+    ctx.event("partner=%s" % case["partner"])
+    beyond = abs(m[0, 0]) > 1.0
+    ctx.event("cosine beyond 1 by round-off" if beyond else "cosine within [-1, 1]")
+    ctx.nontrivial(abs(a) % 90 != 0)
+    axis, ang = c.axis_and_angle_of_rotation()
+    ang = float(ang)
+    if ctx.expect(np.isfinite(ang), "inverse_pair.2d.angle_not_finite",
+                  lambda: "rot(%r deg) %s %s: holds %r, reports %r" % (a, how, case["partner"], m.tolist(), ang)):
+        # |angle| of the held matrix (the sign for sin < 0 is the open known finding, judged in axis_angle_2d only)
+        ok = close(rot2(ang), m, atol=1e-7) or (m[1, 0] < 0 and close(rot2(-ang), m, atol=1e-7))
+        ctx.expect(ok, "inverse_pair.2d.angle_not_of_product",
+                   lambda: "rot(%r deg) %s %s: holds %r, reports %r" % (a, how, case["partner"], m.tolist(), ang))
+    ctx.expect("nan" not in str(c).lower(), "inverse_pair.2d.str_prints_nan", lambda: str(c))
 
 
 def s_axis_angle_3d():
@@ -1035,9 +1078,9 @@ def _axis_angle_ok(ctx, obj, h, sig, who):
         ctx.expect(ok_axis, sig("axis_angle_2d.axis"), lambda: "%s: %r" % (who, axis))
         ang = float(ang)
         if abs(m[0, 0]) > 1.0:
-            # cosine beyond 1 by round-off of a composition: arccos has no value there; recorded, not asserted
-            ctx.event("history: 2-D cosine beyond 1 by round-off (angle %r)" % ("nan" if ang != ang else "finite"))
-            return ("2d", None)
+            # cosine beyond 1 by round-off of a composition (an ulp or two): the angle is 0 or pi to ~1e-8 and must be
+            # reported as such (was nan before repo fix 4656c0b); judged by the general oracle below
+            ctx.event("history: 2-D cosine beyond 1 by round-off")
         if not ctx.expect(np.isfinite(ang), sig("axis_angle_2d.finite"), lambda: "%s: %r" % (who, ang)):
             return ("2d", None)
         if not close(rot2(ang), m, atol=1e-7):
@@ -1330,6 +1373,11 @@ CLAUSES = [
            rule="init_identity of every homogeneous class in the anchored files x n_dims 2, 3 (exhaustive)"),
     Clause("axis_angle_2d", c_axis_angle_2d, s_axis_angle_2d, quick=1500, thorough=40000, nt_floor=0.5,
            rule="2-D rotation of a drawn signed angle; reported angle must reconstruct it, sign included"),
+    Clause("inverse_pair_2d", c_inverse_pair_2d, s_inverse_pair_2d, quick=2500, thorough=60000, nt_floor=0.5,
+           rule="2-D rotation of a drawn angle composed (4 composition entry points) with its pseudoinverse, the rotation "
+                "by the negated angle, or that plus a half turn: the product's axis/angle read-out is finite and "
+                "reconstructs the product (cosine entries an ulp beyond +-1 counted); non-trivial: angle not a "
+                "multiple of 90 deg"),
     Clause("axis_angle_3d", c_axis_angle_3d, s_axis_angle_3d, quick=1500, thorough=40000, nt_floor=0.5,
            rule="Rodrigues rotation from drawn unit axis and signed angle in +-[0.01, pi-0.01]"),
     Clause("quaternion", c_quat, s_quat, quick=1500, thorough=40000, nt_floor=0.5,
